@@ -138,8 +138,19 @@ def _flavour_case(case):
     nontriv = set()
     n = 0
     T = Particle.Type
-    for ratio, source in itertools.product(((1, 1, 1), (1, 0, 0), (0, 1, 2), (2, 1, 1)), ("cosmogenic", "astrophysical")):
-        g, _ = _gen("cyl", energy=1e9, flavor_ratio=ratio, source=source)
+    shared = {}
+    for ratio, source, reuse in itertools.product(((1, 1, 1), (1, 0, 0), (0, 1, 2), (2, 1, 1)), ("cosmogenic", "astrophysical"), (False, True)):
+        if not reuse:
+            g, _ = _gen("cyl", energy=1e9, flavor_ratio=ratio, source=source)
+        else:
+            # ONE generator per source that has already thrown with another ratio and is given the new one through its
+            # documented `ratio` attribute
+            if source not in shared:
+                shared[source] = _gen("cyl", energy=1e9, flavor_ratio=(5, 3, 1), source=source)[0]
+                with rng.owned(rng.ScriptSource(script={0: 0.3, 1: 0.3})):
+                    shared[source].get_particle_type()
+            g = shared[source]
+            g.ratio = np.array(ratio, dtype=float) / sum(ratio)
         r = np.array(ratio, dtype=float) / sum(ratio)
         nb = (0.78, 0.61, 0.61) if source == "cosmogenic" else (0.5, 0.5, 0.5)
         edges = [r[0], r[0] + r[1]]
@@ -155,8 +166,9 @@ def _flavour_case(case):
                     [T.electron_antineutrino, T.muon_antineutrino, T.tau_antineutrino][fl]
                 nontriv.add("fl|%s|%s|%s" % (ratio, source, t.name))
                 if t != want:
-                    fails.append({"check": "flavour", "what": "ratio %s source %s draws (%r,%r): %s, configured thresholds give %s"
-                                                              % (ratio, source, u1, u2, t.name, want.name), "tags": {"group": "flavour"}})
+                    fails.append({"check": "flavour", "what": "ratio %s%s source %s draws (%r,%r): %s, configured thresholds give %s"
+                                                              % (ratio, " (assigned to a generator that had thrown before)" if reuse else "",
+                                                                 source, u1, u2, t.name, want.name), "tags": {"group": "flavour", "reuse": reuse}})
     return {"n": n, "nontrivial": sorted(nontriv), "fails": fails, "sample": {"K": K}}
 
 
